@@ -7,6 +7,7 @@ log-store queries, `compare`, send lists, de-duplication, ingest).  Helper lemma
 -/
 import P2.Model.SyncPair
 import P2.Lemmas.C19
+import P2.Extracted.C19
 
 namespace P2.C19
 open P2.Sync
@@ -364,5 +365,22 @@ example : transcript rb ra = [Msg.have [(0, [(0, 0)]), (1, [(0, 1)])], Msg.preSy
 example : heightsAfter 2 ra rb = [(0, [(0, 2)]), (1, [(0, 1), (5, 0)]), (2, [(0, 3)])] := by decide
 example : heightsAfter 2 rb ra = [(0, [(0, 2)]), (1, [(0, 1), (5, 0)]), (2, [(0, 4)])] := by decide
 example : InScope ra 1 0 ∧ InScope rb 1 0 := ⟨⟨[0, 5], by decide, by decide⟩, ⟨[0, 5], by decide, by decide⟩⟩
+
+/-! ## Tie to the current source text (regenerated into `P2/Extracted/C19.lean` on every run) -/
+
+/-- The decisions of `LogSync::run` the C19 model transcribes, as they read in `log_sync.rs` *now*:
+    `ReceiveHave` does nothing between reading the remote `Have` and `compare(&local, &remote)`
+    (local first: `needs a b = compare (haveOf a) (haveOf b)`), the `Have` message carries the
+    unmodified local heights, received operations pass `!dedup.insert(header.hash())`, and the three
+    store queries get author / log / range in the transcribed positions.  Swapping the `compare`
+    arguments, filtering either height map first, or changing a range argument breaks this theorem. -/
+theorem c19_extracted_decisions :
+    P2.Extracted.C19.recvHaveDecision = "let remote_needs = compare(&local, &remote);" ∧
+    P2.Extracted.C19.haveSent = "local.clone()" ∧
+    P2.Extracted.C19.dedupGuard = "!dedup.insert(header.hash())" ∧
+    P2.Extracted.C19.heightsArgs = "verifying_key, log_ids" ∧
+    P2.Extracted.C19.sizeArgs = "verifying_key, log_id, *after, *until" ∧
+    P2.Extracted.C19.entriesArgs = "&author, &log_id, after, until" :=
+  ⟨rfl, rfl, rfl, rfl, rfl, rfl⟩
 
 end P2.C19
